@@ -622,10 +622,16 @@ def run_part(ctx, build):
     prog_budget = 40 if not thorough else 250
 
     # ---- which programs: generated ones first (quick: all of them), then the corpus (quick: a seeded sample)
-    sample = list(corpus) if thorough else sorted(rng.sample(corpus, min(30, len(corpus))), key=lambda p: p[0])
+    # the hand-written aliasing programs (arguments / parameters / captured variables written and read through two
+    # names) always run, and run first: they are small, and copy propagation and the inliner are exactly the passes
+    # no theorem covers
+    prio = [p for p in corpus if p[0].startswith("alias_")]
+    others = [p for p in corpus if not p[0].startswith("alias_")]
+    sample = list(others) if thorough else sorted(rng.sample(others, min(30 - len(prio), len(others))), key=lambda p: p[0])
     gprogs = [ProgState(n, t, e, a) for n, t, e, a in gen]
     cprogs0 = [ProgState(*p) for p in sample]
-    progs = gprogs + cprogs0
+    progs = [ProgState(*p) for p in prio] + gprogs + cprogs0
+    stats["always_run"] = [p[0] for p in prio]
     stats["programs_run"] = len(progs)
 
     def phase(name, t):
